@@ -43,7 +43,8 @@ end Ang
 structure Svc (α : Type) where
   /-- (cos, sin) of an angle given in degrees -/
   trig : α → Ang α
-  /-- `float(decimal.Decimal(v).to_integral_value(rounding=decimal.ROUND_HALF_UP))`: `Decimal(v)` is the EXACT
+  /-- `float(decimal.Decimal(float(v)).to_integral_value(rounding=decimal.ROUND_HALF_UP))` (`float(v)`, since d32cdce, is the
+  identity on the float64 sums this function produces): `Decimal(v)` is the EXACT
   value of the binary float, so this is exact rounding half away from zero — the driver evaluates `roundHalfUp`
   (below) at `Rat` on the exact value of the float; over an ordered field any `round` with `RoundSpec` will do -/
   round : α → α
